@@ -118,7 +118,12 @@ func c06(r *sim.R) *sim.Violation {
 	}
 	r.Nontriv = len(what) > 0
 	r.Event("victim %s/%d: %s", vIface, vDay, strings.Join(what, "; "))
-	sig := "column files damaged"
+	sig := "column files damaged, all present"
+	for _, w := range what {
+		if strings.HasSuffix(w, ": deleted") {
+			sig = "column file deleted"
+		}
+	}
 	if metaDamaged {
 		sig = "metadata damaged"
 	}
